@@ -256,6 +256,9 @@ class Codec(object):
                 raise lex.LexError("msgpack-rpc response expected, got %r" % (doc,))
             doc = doc[3]
             return self._members(m, names, doc, wrapped=False, unwrap_single=False)
+        if self.cfg.wrappers and m.get("style") == "bare":
+            # the reply of a bare method is the returned value itself
+            return self._members(m, names, doc, wrapped=False, unwrap_single=True)
         if self.cfg.wrappers:
             if not isinstance(doc, dict) or len(doc) != 1:
                 raise lex.LexError("response wrapper expected, got %r" % (doc,))
